@@ -29,6 +29,17 @@ def run(ctx):
         rates.append(v + "+json")
     for a_, b_ in (("50", "7"), ("7", "50"), ("omit", "50"), ("50", "omit"), ("50", "50"), ("4294967", "1"), ("1", "4294968")):
         rates.append(a_ + ">" + b_)
+    # other spellings of a number: published exactly (as a rational x 1000) or refused
+    rates += ["32.3", "1.001", "2.01", "0.0625", "0.5", "50.0", "1e3", "+50", "050", " 50", "50 ", "0x10", "1_000", "4294967.295", "4294967.2951", "0.001", "0.0001", ""]
+    if not q:
+        for _ in range(300):
+            rates.append("%d.%03d" % (rng.randrange(0, 100), rng.randrange(0, 1000)))
+    # the whole life of a daemon: chronyd answering, a signal delivered on the way, the segment sampled every 10 ms
+    for sig in ("", "SIGUSR1", "SIGUSR2", "SIGHUP", "SIGCONT", "SIGWINCH", "SIGURG", "SIGCHLD", "SIGALRM", "SIGTERM", "SIGINT"):
+        rates.append("50+life" + sig)
+    rates += ["7+life", "omit+lifeSIGUSR1", "4294967+lifeSIGUSR1"]
+    # the daemon's main thread held back after each thread spawn (a starved or stopped process at start-up)
+    rates += ["50+slowspawn", "7+slowspawn", "omit+slowspawn", "4294968+slowspawn"]
     rates = list(dict.fromkeys(rates))
     chunks = [rates[i::NPROC] for i in range(NPROC)]
     cmds, outs = [], []
@@ -41,6 +52,7 @@ def run(ctx):
     res = ctx.run_parallel(cmds, 1200)
     viol, samples = [], []
     n = 0
+    life_runs = life_samples = lost_life = 0
     published = refused = 0
     classes = {}
     lost = 0
@@ -56,14 +68,27 @@ def run(ctx):
             if r.get("setup_failed"):
                 lost += 1
                 continue
-            rate = spec.split(">")[-1].replace("+phc", "").replace("+json", "")
+            rate = spec.split(">")[-1].replace("+phc", "").replace("+json", "").replace("+slowspawn", "").split("+life")[0]
             want = None
             try:
-                v = 1 if rate == "omit" else int(rate)
-                if 0 <= v < 2 ** 32:
-                    want = 1000 if rate == "omit" else v * 1000
-            except ValueError:
+                from fractions import Fraction
+                v = Fraction(1) if rate == "omit" else Fraction(rate)
+                if 0 <= v < 2 ** 32 and (v * 1000).denominator == 1:
+                    want = int(v * 1000)
+            except (ValueError, ZeroDivisionError):
                 pass
+            if r.get("life"):
+                lf = r["life"]
+                life_runs += 1
+                life_samples += lf["samples"]
+                wrong = {k: n_ for k, n_ in lf["drift_values_seen"].items() if want is None or int(k) != want}
+                if wrong:
+                    rp = os.path.join(ctx.replay_dir, "C19-%s.json" % spec)
+                    with open(rp, "w") as f:
+                        json.dump({"property": "C19", "observation": r}, f, indent=1)
+                    viol.append({"sig": "drift-field-changes-during-run", "detail": "clockbound --max-drift-rate %s with chronyd answering, signal %s after 1.6 s: of %d samples of the segment (10 ms apart) the max-drift field read %s (expected %s throughout); statuses seen %s" % (rate, lf["signal"] or "none", lf["samples"], lf["drift_values_seen"], want, lf["statuses_seen"]), "replay": rp})
+                if lf["samples"] < 50 and want is not None and want < 2 ** 32:
+                    lost_life += 1
             cls = "omitted" if rate == "omit" else ("unparsable" if want is None else ("representable" if want < 2 ** 32 else "not-representable"))
             classes[cls] = classes.get(cls, 0) + 1
             if r["published"]:
@@ -87,23 +112,27 @@ def run(ctx):
                     with open(rp, "w") as f:
                         json.dump({"property": "C19", "observation": r}, f, indent=1)
                     viol.append({"sig": "no-publication-no-refusal", "detail": "clockbound --max-drift-rate %s neither published (a new record) within 8 s nor exited with an error (exit code %s): %s" % (spec, r["exit_code"], r["stderr_tail"][-200:]), "replay": rp})
-                elif want is not None and want < 2 ** 32:
+                elif want is not None and want < 2 ** 32 and (rate == "omit" or rate.isdigit()):
                     viol.append({"sig": "valid-rate-refused", "detail": "clockbound --max-drift-rate %s exited with code %s without publishing: %s" % (rate, r["exit_code"], r["stderr_tail"][-200:]), "replay": ""})
                 if len(samples) < 5 and cls != "representable":
                     samples.append({"rate_ppm": rate, "refused_exit_code": r["exit_code"]})
     inconclusive = None
     if lost:
         inconclusive = "%d sandbox runs did not finish" % lost
+    elif lost_life:
+        inconclusive = "%d whole-life runs yielded fewer than 50 samples of the segment" % lost_life
     elif published < 20 or classes.get("not-representable", 0) < 20:
         inconclusive = "monitors observed too little (published %d, non-representable rates %d)" % (published, classes.get("not-representable", 0))
     coverage = {
         "evaluations": n,
         "distinct_nontrivial": len(rates),
-        "rule": "each evaluation starts the release `clockbound` binary (guard off, as shipped) in its own mount namespace with a private /run and no chronyd, with one --max-drift-rate value: omitted, 0, 1, 50, the largest representable 4294967, the first wrapping 4294968, 2^31, 2^32-1, 2^32, -1, 'abc', values around every multiple of 2^32/1000, random representable and non-representable values; a few values again with the PHC options (private /sys) and with --json-output; restarts with another value over the segment the previous instance published; "
+        "rule": "each evaluation starts the release `clockbound` binary (guard off, as shipped) in its own mount namespace with a private /run and no chronyd, with one --max-drift-rate value: omitted, 0, 1, 50, the largest representable 4294967, the first wrapping 4294968, 2^31, 2^32-1, 2^32, -1, 'abc', values around every multiple of 2^32/1000, random representable and non-representable values; a few values again with the PHC options (private /sys) and with --json-output; restarts with another value over the segment the previous instance published; other spellings of a number (decimals, exponent, sign, spaces: exact rational x 1000 or refusal); whole-life runs (chronyd stand-in answering, one of 10 signals delivered after 1.6 s, the max-drift field sampled every 10 ms for 4.2 s: the configured value throughout, whatever the daemon does on the signal); starts with the spawning thread held back 300 ms after each thread creation (strace delay injection); "
                 "the max-drift field is read from the segment at the offset PROTOCOL.md gives (56) after the first publication, or the exit status is taken; oracle: publishes exactly 1000 x rate (1000 when omitted) or exits non-zero without publishing; distinct_nontrivial = distinct rate values",
         "samples": samples,
         "published": published,
         "refused": refused,
+        "whole_life_runs": life_runs,
+        "whole_life_segment_samples": life_samples,
         "classes": classes,
     }
     finish(ctx, coverage, viol, inconclusive, assumptions=["the first publication happens without chronyd (poller reports 'not responding', the writer publishes the configured drift with status Unknown)"])
